@@ -596,6 +596,8 @@ fn copy_or_downsample(src_mode: &Mode, src_lg_k: u8, tgt_lg_k: u8) -> Array8 {
             }
         }
 
+        // The copy is marked out-of-order for every source type (the Array8 branch already was)
+        result.rebuild_estimator_from_registers();
         result.set_hip_accum(src_hip);
         result
     } else {
